@@ -97,12 +97,23 @@ def _module_for_repo(module_dir):
     return dst
 
 
+def _cover_flags():
+    """VERIF_COVER=<dir> (bin/reach): build every harness tool and the server with statement coverage of the code under
+    test and let them write GOCOVERDIR data there - which lines of the anchored files did the drivers reach?"""
+    d = os.environ.get("VERIF_COVER")
+    if not d:
+        return []
+    os.makedirs(d, exist_ok=True)
+    os.environ["GOCOVERDIR"] = d
+    return ["-cover", "-covermode=set", "-coverpkg=./...,github.com/innovationb1ue/RedisGO/...,go.etcd.io/etcd/raft/v3/...,go.etcd.io/etcd/server/v3/storage/wal/...,go.etcd.io/etcd/server/v3/etcdserver/api/snap/..."]
+
+
 def go_build(module_dir, pkg, out, tags="verif", race=False, timeout=900):
     """Build package `pkg` of the Go module at module_dir (which `replace`s RedisGO => /repo) into `out`.
     Always rebuilds against /repo's current working tree (go's build cache keys on file content)."""
     module_dir = _module_for_repo(module_dir)
     ensure_gosum(module_dir)
-    cmd = ["go", "build", "-o", out]
+    cmd = ["go", "build", "-o", out] + _cover_flags()
     if tags:
         cmd += ["-tags", tags]
     if race:
@@ -117,7 +128,7 @@ def go_build(module_dir, pkg, out, tags="verif", race=False, timeout=900):
 
 def go_build_repo(pkg_dir, out, tags="verif", race=False, timeout=900):
     """Build a main package inside /repo itself (e.g. the server binary)."""
-    cmd = ["go", "build", "-o", out]
+    cmd = ["go", "build", "-o", out] + _cover_flags()
     if tags:
         cmd += ["-tags", tags]
     if race:
